@@ -6,7 +6,7 @@ set -u
 tier="${1:-quick}"; shift || true
 cd /verif
 names="$*"; [ -n "$names" ] || names=$(ls seeded | grep -v RESULTS)
-out=seeded/RESULTS.md
+out=${OUT:-seeded/RESULTS.md}
 tmpd=$(mktemp -d /tmp/sweep-XXXXXX)
 ( cd engine && GOFLAGS=-mod=mod GOPROXY=off GOSUMDB=off GOTOOLCHAIN=local go build -o ../bin/zsym ./cmd/zsym ) || exit 3
 one() {
